@@ -5,7 +5,7 @@ from __future__ import annotations
 import json
 from collections import Counter
 
-from .core import EventLog, Tapes, use_repo
+from .core import EventLog, Tapes, use_repo, task_exc
 from .fs import SimDisk, patched_fs
 from .loop import SimCrash, new_loop
 
@@ -36,7 +36,7 @@ class PWorld:
         """Run a coroutine to completion (or crash / hang). Returns (kind, value)."""
         t = self.loop.create_task(coro)
         self.loop.run_until_idle(horizon)
-        if t.done() and not t.cancelled() and isinstance(t.exception(), SimCrash):
+        if t.done() and not t.cancelled() and isinstance(task_exc(t), SimCrash):
             self.loop.crashed = True  # the process died in a synchronous file-system call on the loop thread
         if self.loop.crashed:
             return "crash", None
@@ -46,8 +46,8 @@ class PWorld:
             return "hang", None
         if t.cancelled():
             return "cancelled", None
-        if t.exception() is not None:
-            return "err", t.exception()
+        if task_exc(t) is not None:
+            return "err", task_exc(t)
         return "ok", t.result()
 
     def close(self):
